@@ -47,6 +47,9 @@ type RecDB struct {
 
 	// OnCommit, if set, is called under the commit lock after each successful commit.
 	OnCommit func(index int, ws WriteSet)
+	// FailCommitIf, if set, is asked under the commit lock before a write-set is applied;
+	// answering true makes that commit fail with ErrInjected (nothing of it is applied).
+	FailCommitIf func(ws WriteSet) bool
 }
 
 func NewRecDB(inner db.KeyValueStore) *RecDB { return &RecDB{inner: inner} }
@@ -111,6 +114,10 @@ func (d *RecDB) commit(ws WriteSet, apply func() error) error {
 	defer d.mu.Unlock()
 	d.commits++
 	if d.failCommit > 0 && d.commits == d.failCommit {
+		d.Fired = true
+		return ErrInjected
+	}
+	if d.FailCommitIf != nil && d.FailCommitIf(ws) {
 		d.Fired = true
 		return ErrInjected
 	}
